@@ -4,7 +4,7 @@
 // Everything above this line is the repository's current paseto-core/src/base64.rs, verbatim.
 // ---------------------------------------------------------------------------------------------
 #[cfg(kani)]
-mod proofs {
+pub mod proofs {
     use super::*;
 
     fn is_alpha(b: u8) -> bool {
@@ -35,7 +35,7 @@ mod proofs {
     // ---------------- L0: all inputs, no bound -------------------------------------------
 
     #[kani::proof]
-    fn l0_decode_6bits_exact() {
+    pub fn l0_decode_6bits_exact() {
         let b: u8 = kani::any();
         let v = decode_6bits(b);
         assert!(v == ref_val(b));
@@ -44,7 +44,7 @@ mod proofs {
     }
 
     #[kani::proof]
-    fn l0_encode_6bits_inverse() {
+    pub fn l0_encode_6bits_inverse() {
         let s: i16 = kani::any();
         kani::assume(s >= 0 && s < 64);
         let c = encode_6bits(s);
@@ -59,7 +59,7 @@ mod proofs {
     }
 
     #[kani::proof]
-    fn l0_encode_then_decode_3bytes() {
+    pub fn l0_encode_then_decode_3bytes() {
         let src: [u8; 3] = kani::any();
         let mut enc = [0u8; 4];
         encode_3bytes(&src, &mut enc);
@@ -78,7 +78,7 @@ mod proofs {
     }
 
     #[kani::proof]
-    fn l0_decode_3bytes_exact() {
+    pub fn l0_decode_3bytes_exact() {
         let src: [u8; 4] = kani::any();
         let mut dec = [0u8; 3];
         let err = decode_3bytes(&src, &mut dec);
@@ -102,7 +102,7 @@ mod proofs {
     }
 
     #[kani::proof]
-    fn l0_decoded_len() {
+    pub fn l0_decoded_len() {
         let n: usize = kani::any();
         let d = decoded_len(n);
         // floor(3n/4) without overflow: n = 4k + l
@@ -117,7 +117,7 @@ mod proofs {
 
     #[kani::proof]
     #[kani::unwind(6)]
-    fn l0_encode_last() {
+    pub fn l0_encode_last() {
         let b: [u8; 3] = kani::any();
         let n: usize = kani::any();
         kani::assume(n <= 2);
@@ -202,7 +202,7 @@ mod proofs {
         ($($name:ident = $n:literal),*) => {$(
             #[kani::proof]
             #[kani::unwind(14)]
-            fn $name() { decode_strict::<$n>(); }
+            pub fn $name() { decode_strict::<$n>(); }
         )*};
     }
     decode_strict_h!(
@@ -214,7 +214,7 @@ mod proofs {
     /// too-small destination is an error, never a truncated result or an out-of-bounds write
     #[kani::proof]
     #[kani::unwind(10)]
-    fn l1_decode_small_dst() {
+    pub fn l1_decode_small_dst() {
         let src: [u8; 6] = kani::any();
         let s = unsafe { core::str::from_utf8_unchecked(&src) };
         let cap: usize = kani::any();
@@ -299,7 +299,7 @@ mod proofs {
         ($($name:ident = $n:literal),*) => {$(
             #[kani::proof]
             #[kani::unwind(14)]
-            fn $name() { encode_roundtrip::<$n>(); }
+            pub fn $name() { encode_roundtrip::<$n>(); }
         )*};
     }
     roundtrip_h!(
@@ -312,7 +312,7 @@ mod proofs {
     /// instantiation at N = 0 stalls CBMC for minutes on zero-sized symbolic arrays)
     #[kani::proof]
     #[kani::unwind(14)]
-    fn l1_encode_roundtrip_empty() {
+    pub fn l1_encode_roundtrip_empty() {
         let mut sink = Sink { buf: [0; 24], len: 0 };
         {
             let mut f = fmt::Formatter::new(&mut sink, fmt::FormattingOptions::new());
@@ -360,7 +360,7 @@ mod proofs {
         ($($name:ident = $n:literal),*) => {$(
             #[kani::proof]
             #[kani::unwind(14)]
-            fn $name() { decode_vec_agrees::<$n>(); }
+            pub fn $name() { decode_vec_agrees::<$n>(); }
         )*};
     }
     vec_agrees_h!(
